@@ -353,6 +353,26 @@ static void op_ae(void) {
     if (!isdef) free(x);
 }
 
+/* ---------------------------------------------------------------- op: sc */
+/* the accept_encoding bit set of the scan loop, observed through three single-entry allowed lists */
+static void op_sc(void) {
+    static const uint16_t bits[3] = { HTTP_ACCEPT_ENCODING_GZIP, HTTP_ACCEPT_ENCODING_X_GZIP,
+                                      HTTP_ACCEPT_ENCODING_DEFLATE };
+    static const char * const want[3] = { "gzip", "x-gzip", "deflate" };
+    size_t n; unsigned char *h = ltv_unhex(ltv_tok[1], &n);
+    char out[4] = "000";
+    for (int i = 0; i < 3; ++i) {
+        uint16_t x[2] = { bits[i], 0 };
+        P->conf.allowed_encodings = x;
+        const char *label = NULL;
+        int ct = mod_deflate_choose_encoding((const char *)h, P, &label);
+        if (ct) out[i] = (label && 0 == strcmp(label, want[i])) ? '1' : '?';
+    }
+    P->conf.allowed_encodings = NULL;
+    puts(out);
+    free(h);
+}
+
 /* ---------------------------------------------------------------- op: name */
 /* black box: a cacheable response goes through response_start; the names are those handed to
  * open(O_CREAT) and rename() (no static helper of mod_deflate.c is called directly) */
@@ -963,6 +983,7 @@ int main(void) {
         if (ltv_ntok < 1) { puts("bad-op"); continue; }
         const char *op = ltv_tok[0];
         if (0 == strcmp(op, "ae") && ltv_ntok == 3) op_ae();
+        else if (0 == strcmp(op, "sc") && ltv_ntok == 2) op_sc();
         else if (0 == strcmp(op, "rs") && ltv_ntok == 18) op_rs();
         else if (0 == strcmp(op, "name") && ltv_ntok == 6) op_name();
         else if (0 == strcmp(op, "zs") && ltv_ntok == 7) op_zs();
